@@ -386,6 +386,16 @@ def stress_corpus():
         ("span_end_column_before_start", b"cmd <fooooooooooooo\no>;"),
         ("wrapped_specialization_rhs", b"cmd <A>;\n<A@bash> = foo\n bar;\n<A@fish> = foo\n bar;\n<A@zsh> = foo\n bar;\n<A@pwsh> = foo\n bar;\n"),
         ("multiline_unused_def_name", b"cmd x;\n<UNUSED\nNAME> = y;\n"),
+        ("warning_at_column_70000", b"cmd " + b"w " * 35000 + b"<UNDEFINED>;\n"),
+        ("parse_error_at_column_70000", b"cmd " + b"w " * 35000 + b"(;\n"),
+        ("warning_on_line_70000", b"#\n" * 70000 + b"cmd <UNDEFINED>;\n<UNUSED> = x;\n"),
+        ("parse_error_on_line_70000", b"#\n" * 70000 + b"cmd (;\n"),
+        ("commands_300", b"cmd " + b" | ".join(b"c%d {{{ echo %d }}}" % (i, i) for i in range(300)) + b";\n"),
+        ("literals_300_descr", b"cmd " + b" | ".join(b"l%d \"d%d\"" % (i, i) for i in range(300)) + b";\n"),
+        ("words_300", b"cmd " + b" | ".join(b"--o%d=(a | b%d)" % (i, i) for i in range(300)) + b";\n"),
+        ("error_last_statement_no_terminator", b"cmd a;\n<X@tcsh> = {{{ x }}}"),
+        ("error_inside_multiline_command_spec", b"cmd <S>;\n<S@bash> = foo {{{ multi\n  line\n }}} bar\n  baz;\n"),
+        ("two_errors_at_once", b"cmd (a \"1\" | a \"2\") <D>;\n<D> = x;\n<D> = y;\n<E@nosuchshell> = {{{ z }}};\n"),
         ("wide_chars_before_error", "cmd 日本語 \"説明\" <UNDEFINED>;\n<UNUSED> = ü;\n".encode()),
     ]
     return items
